@@ -527,7 +527,7 @@ def check_C08(tier, seed):
         for rel in rng.sample(files, min(len(files), 12 if q else 150)):
             _, data = gens.corpus_event(rel)
             for content in (data, gens.mutate_file(rng, data), gens.mutate_file(rng, data), data[:rng.randint(0, len(data) - 1)]):
-                name = rng.choice(["GMT0", "UTC0", "EST5EDT", "GMT+0", "Some/Zone", "<-03>3"])
+                name = rng.choice(["GMT0", "UTC0", "GMT0", "GMT+0", "Some/Zone", "<-03>3", "EST5EDT,M3.2.0,M11.1.0"])
                 yield {"op": "resolve", "a": {"s": C.B(rng.choice(["", ":"]) + name), "dirs": [C.B("/zi")], "vfs": [[C.B("/zi/" + name), list(content)]], "via": "posix"}, "g": 1}
     run_pipeline(res, binary, "by-name", gen_lines=by_name(), nshards=8, min_events=10)
     res.notes["rule"] = "vectors: small zones written by the TLA+ encoder in v1/v2/v3 (32-bit block of v2+ holds a different zone; shared-suffix and empty designations; all indicator vectors; plain and extended footers) with Decode(Encode(z)) = z model-checked, plus every truncation and single-byte corruption of a share of them with the spec decoder's verdict; events: real tzdata 2025b files (posix and right/ trees) decoded by the TLA+ decoder inside TLC and compared with the crate's zone, and single-field corruptions of real files; synthesised well-formed files of the shapes the corpus lacks (designation tables beyond 256 bytes with names crossing byte 255, suffix designations, up to 200 types, 32-bit blocks of v2+ files that are not valid zones of their own, all indicator combinations, leap tables) and their mutations"
